@@ -3,6 +3,7 @@ package drive
 import (
 	"bytes"
 	"encoding/json"
+	"errors"
 	"fmt"
 	"sort"
 	"strings"
@@ -13,6 +14,8 @@ import (
 	"verif/harness/model"
 	"verif/harness/mon"
 )
+
+var errConsumer = errors.New("verif: consumer error")
 
 // ------------------------------------------------------- query fingerprints
 
@@ -203,6 +206,35 @@ func (s *S) Derived(q *model.Query) {
 		}
 	}
 	s.c.Eval(4 + len(stops))
+
+	// IterateDocs: the consumer's own error must come back, after exactly k calls
+	if len(all) > 0 {
+		k := 1 + s.r.Intn(len(all))
+		calls := 0
+		label := fmt.Sprintf("IterateDocs(%s, consumer fails at call %d)", name, k)
+		got, err = s.run(label, true, func() error {
+			return s.h.DB.IterateDocs(cq, func(d *document.Document) error {
+				calls++
+				if calls == k {
+					return errConsumer
+				}
+				return nil
+			})
+		})
+		if got == EPanic {
+			return
+		}
+		s.c.Eval(1)
+		if !errors.Is(err, errConsumer) {
+			s.viol("derived:iteratedocs-error:"+s.plan, "%s returned %v instead of the consumer's error (plan %s)", label, err, s.plan)
+			return
+		}
+		if calls != k {
+			s.viol("derived:iteratedocs-after-error:"+s.plan, "%s: consumer called %d times", label, calls)
+			return
+		}
+		s.tr("%s -> consumer error after %d calls", label, calls)
+	}
 
 	// builder calls must not touch the receiver
 	_ = cq.Skip(3)
